@@ -1345,6 +1345,34 @@ func c08Accept(p *ana.Prog, r *ana.Result) {
 					}
 				}
 			}
+			// the loop itself must not wait for its handlers: a blocking channel operation (a semaphore
+			// slot, a hand-over queue) in the iteration makes accepting depend on peers that hold a
+			// handler - handlers read from their peer without a deadline
+			ana.Instrs(f, func(j ssa.Instruction) {
+				blocking := ""
+				switch y := j.(type) {
+				case *ssa.Send:
+					blocking = "sends on a channel"
+				case *ssa.UnOp:
+					if y.Op == token.ARROW {
+						if cl, _ := ana.CallOf(y.X); cl != nil && strings.HasSuffix(ana.CalleeName(cl.Common()), ").Done") {
+							return // cancellation
+						}
+						blocking = "receives from a channel"
+					}
+				case *ssa.Select:
+					if y.Blocking {
+						blocking = "selects without default"
+					}
+				}
+				if blocking == "" {
+					return
+				}
+				// in the same iteration as the accept: reachable from it and reaching it again
+				if ana.Reachable(f, c, func(x ssa.Instruction) bool { return x == j }, nil, nil) && ana.Reachable(f, j, func(x ssa.Instruction) bool { return x == ssa.Instruction(c) }, nil, nil) {
+					note(j, blocking+" inside the accept loop (waits for handlers that may never finish)")
+				}
+			})
 			key := "accept-loop-only-dispatches:" + ana.Short(ana.CalleeName(&c.Call))
 			if len(bad) == 0 {
 				r.Ok("C08.accept", fname, key, posOf(p, c), "the accepted connection is only handed to a goroutine (or closed/logged); the accept loop does no peer-paced work")
